@@ -190,7 +190,7 @@ Section Pushes.
     - destruct g as [[it stopped]|].
       + destruct (it_tomb it || (fin_of (r_f r) && negb stopped)); inversion H; subst; clear H.
         * rewrite csum_bl_after_sent. lia.
-        * rewrite csum_app. cbn [csum]. pose proof (bl_range k id (IRcvEnq r rk)).
+        * rewrite csum_app. cbn [csum]. pose proof (bl_range k id (IRcvEnq r rk (it_dest it, it_remap it))).
           assert (Hz : csum (bl k id) (if (r_ft r =? c_responseFrame) || (f_mt (r_f r) =? c_messageTypeCancel)
              then if dcsSucceeded (f_mt (r_f r)) (f_code (r_f r)) [reason_syscode (f_code (r_f r))] then [ICb (it_call it) CbSucc]
                   else if 0 <? zlen (dcsFailMsg (f_mt (r_f r)) (f_code (r_f r)) [reason_syscode (f_code (r_f r))])
@@ -208,7 +208,7 @@ Section Pushes.
       rewrite csum_app. cbn [csum]. unfold bl at 2. cbn [blocked adm_kf b2z].
       destruct (match s with FromFail _ => it_orig it | FromTimeout o => o end); [|cbn; lia].
       unfold orig_tail. destruct s; [destruct (reason =? reason_source_slow)|]; blcount.
-    - destruct (items_delete st t) as [st' g]. destruct g as [[it [|]]|]; inversion H; subst; try (cbn; lia).
+    - destruct (items_delete_call st t lk) as [st' g]. destruct g as [[it [|]]|]; inversion H; subst; try (cbn; lia).
       destruct (it_orig it); cbn; lia.
     - destruct (zlookup tm (timers st)) as [x|]; [|inversion H; subst; cbn; lia].
       destruct (tm_released x); inversion H; subst; cbn; lia.
@@ -217,7 +217,7 @@ Section Pushes.
   (* where a blocked instruction comes from *)
   Lemma pushed_blocked : forall cf st th i rest room st1 pushed j, Inv st -> In (th, i :: rest) (threads st) ->
     exec cf st i room = (st1, pushed) -> In j pushed -> blocked k id j = true ->
-    (blocked k id i = true /\ ((exists k' f, adm_kf i = Some (k', f)) \/ (exists r rk g, i = IRcvChk r rk g /\ j = IRcvEnq r rk))) \/
+    (blocked k id i = true /\ ((exists k' f, adm_kf i = Some (k', f)) \/ (exists r rk g lk, i = IRcvChk r rk g /\ j = IRcvEnq r rk lk))) \/
     (exists r it s, i = IRcvGet r /\ j = IRcvChk r (rcv_key r) (Some (it, s)) /\
         klookup (rcv_key r) (items st) = Some it /\ it_tomb it = false) \/
     (exists s it0 code, i = IEntomb K0 s /\ klookup K0 (items st) = Some it0 /\ it_tomb it0 = false /\ j = ISendErr k id code).
@@ -257,7 +257,7 @@ Section Pushes.
         * rewrite (after_sent_unblocked k id r j Hj) in Hb. discriminate.
         * apply orb_false_iff in Echk. destruct Echk as [Et Es].
           apply in_app_or in Hj. destruct Hj as [Hj|[<-|[]]]; [in_cases Hj; discriminate|].
-          split; [|right; exists r, rk, (Some (it, stopped)); split; reflexivity].
+          split; [|right; exists r, rk, (Some (it, stopped)), (it_dest it, it_remap it); split; reflexivity].
           cbn in Hb. cbn. rewrite Hb, Et. cbn. destruct (fin_of (r_f r)); [|reflexivity]. cbn in Es. apply negb_false_iff in Es. exact Es.
       + inversion H; subst. in_cases Hj. discriminate.
     - destruct room; inversion H; subst; clear H.
@@ -288,7 +288,7 @@ Section Pushes.
       { intros code Hbb. cbn in Hbb. apply andb_true_iff in Hbb. destruct Hbb as [E1 E2]. apply Z.eqb_eq in E1. apply Z.eqb_eq in E2.
         destruct t as [[tc td] ti]. cbn in *. subst. exists s, it0, code. repeat split; assumption. }
       unfold orig_tail in Hj. destruct s; in_cases Hj; try discriminate; apply Hgoal; exact Hb.
-    - destruct (items_delete st t) as [st' g]. destruct g as [[it [|]]|]; inversion H; subst; try contradiction.
+    - destruct (items_delete_call st t lk) as [st' g]. destruct g as [[it [|]]|]; inversion H; subst; try contradiction.
       in_cases Hj; discriminate.
     - destruct (zlookup tm (timers st)) as [x|]; [|inversion H; subst; contradiction].
       destruct (tm_released x); inversion H; subst; try contradiction. destruct Hj as [<-|[]]. discriminate.
@@ -324,7 +324,7 @@ Section Grammar.
       ((exists r, i = IFailGet K0 r) \/ (exists r, i = IEntomb K0 (FromFail r))).
 
   Definition committed (j : instr) : option rcv :=
-    match j with IRcvChk r _ _ | IRcvEnq r _ => if blocked k id j then Some r else None | _ => None end.
+    match j with IRcvChk r _ _ | IRcvEnq r _ _ => if blocked k id j then Some r else None | _ => None end.
 
   Definition k0_notlive (st : state) : Prop := forall it0, klookup K0 (items st) = Some it0 -> it_tomb it0 = true.
 
@@ -383,7 +383,7 @@ Section Grammar.
       apply in_app_or in Hj. destruct Hj as [Hj|[<-|[]]]; [|discriminate].
       destruct (match s with FromFail _ => it_orig it | FromTimeout o => o end); [|contradiction].
       unfold orig_tail in Hj. destruct s; in_cases Hj; discriminate.
-    - destruct (items_delete st t) as [st' g]. destruct g as [[it [|]]|]; inversion H; subst; try contradiction.
+    - destruct (items_delete_call st t lk) as [st' g]. destruct g as [[it [|]]|]; inversion H; subst; try contradiction.
       in_cases Hj; discriminate.
     - destruct (zlookup tm (timers st)) as [x0|]; [|inversion H; subst; contradiction].
       destruct (tm_released x0); inversion H; subst; try contradiction. destruct Hj as [<-|[]]. discriminate.
@@ -430,7 +430,7 @@ Qed.
 
 Lemma step_items_keep : forall cf st l st' t it, Inv st -> step cf st l = Some st' -> klookup t (items st) = Some it -> it_tomb it = false ->
   klookup t (items st') = Some it \/
-  (exists th room rest i, l = LStep th room /\ lookup tid_eqb th (threads st) = Some (i :: rest) /\ ((exists s, i = IEntomb t s) \/ i = IDelete t)).
+  (exists th room rest i, l = LStep th room /\ lookup tid_eqb th (threads st) = Some (i :: rest) /\ ((exists s, i = IEntomb t s) \/ exists lk, i = IDelete t lk)).
 Proof.
   intros cf st l st' t it HI H Hl Hlive. unfold step in H. destruct (negb (panicked st =? 0)); [discriminate|].
   destruct l as [k f e|th room|tm|t0|k|k|k].
@@ -441,10 +441,10 @@ Proof.
     destruct (exec cf st i room) as [st1 pushed] eqn:E. inversion H. subst st'. cbn [set_thread set_threads items].
     pose proof (lookup_in tid_eqb tid_eqb_ok _ _ _ El) as Hin0.
     destruct (inv_code _ HI _ _ Hin0) as [Hfo _]. inversion Hfo as [|? ? Hiok _]. subst.
-    destruct (exec_items_keep _ _ _ _ _ _ _ _ E Hl) as [Hk|[(s&Hi)|[Hi|[(k&f&e&c&d&Hi&Ht)|(k&f&e&c&d&did&Hi&Ht)]]]].
+    destruct (exec_items_keep _ _ _ _ _ _ _ _ E Hl) as [Hk|[(s&Hi)|[(lk0&Hi)|[(k&f&e&c&d&Hi&Ht)|(k&f&e&c&d&did&Hi&Ht)]]]].
     + left. exact Hk.
     + right. exists th, room, rest, i. split; [reflexivity|]. split; [exact El|]. left. exists s. exact Hi.
-    + right. exists th, room, rest, i. split; [reflexivity|]. split; [exact El|]. right. exact Hi.
+    + right. exists th, room, rest, i. split; [reflexivity|]. split; [exact El|]. right. exists lk0. exact Hi.
     + exfalso. subst t. destruct (inv_keys _ HI (d, 1, c_nextid (get_conn st d))) as [[Hz _]|[_ Hlt]].
       * left. apply (lookup_in key_eqb key_eqb_ok) in Hl. apply (in_map fst) in Hl. exact Hl.
       * cbn in Hz. discriminate.
@@ -808,7 +808,7 @@ Section Frame.
     wout k id st' = wout k id st \/
     (exists th room i rest, l = LStep th room /\ lookup tid_eqb th (threads st) = Some (i :: rest) /\ blocked k id i = true /\
        ((exists ec, i = ISendErr k id ec /\ wout k id st' = wout k id st ++ [Err]) \/
-        (exists r rk x, i = IRcvEnq r rk /\ room = true /\ kind_of (r_f r) = Some x /\ wout k id st' = wout k id st ++ [x]))).
+        (exists r rk lk x, i = IRcvEnq r rk lk /\ room = true /\ kind_of (r_f r) = Some x /\ wout k id st' = wout k id st ++ [x]))).
   Proof.
     intros st l st' H. unfold step in H. destruct (negb (panicked st =? 0)); [discriminate|].
     destruct l as [k0 f e|th room|tm|t0|k0|k0|k0].
@@ -818,7 +818,7 @@ Section Frame.
     - destruct (lookup tid_eqb th (threads st)) as [[|i rest]|] eqn:El; try discriminate.
       destruct (exec cf st i room) as [st1 pushed] eqn:E. inversion H. subst st'. clear H.
       unfold wout. cbn [set_thread set_threads sent].
-      destruct (exec_sent_w _ _ _ _ _ _ E) as [_ [Hs|[(k1&id1&code1&Hi&Hs)|(r&rk&Hi&Hs)]]]; rewrite Hs.
+      destruct (exec_sent_w _ _ _ _ _ _ E) as [_ [Hs|[(k1&id1&code1&Hi&Hs)|(r&rk&lk&Hi&Hs)]]]; rewrite Hs.
       + left. reflexivity.
       + subst i. destruct ((k1 =? k) && (id1 =? id)) eqn:Eb.
         * right. apply andb_true_iff in Eb. destruct Eb as [E1 E2]. apply Z.eqb_eq in E1. apply Z.eqb_eq in E2. subst k1 id1.
@@ -826,9 +826,9 @@ Section Frame.
           left. exists code1. split; [reflexivity|]. rewrite wire_of_cons. cbn [f_id]. rewrite !Z.eqb_refl. reflexivity.
         * left. apply wire_of_cons_other. cbn [f_id]. rewrite Eb. reflexivity.
       + subst i. destruct ((r_d r =? k) && (f_id (r_f r) =? id) && is_wire (r_f r)) eqn:Eb.
-        * right. exists th, room, (IRcvEnq r rk), rest. split; [reflexivity|]. split; [exact El|]. split; [exact Eb|]. right.
+        * right. exists th, room, (IRcvEnq r rk lk), rest. split; [reflexivity|]. split; [exact El|]. split; [exact Eb|]. right.
           apply andb_true_iff in Eb. destruct Eb as [Eb Ew]. unfold is_wire in Ew. destruct (kind_of (r_f r)) as [x|] eqn:Ek; [|discriminate].
-          exists r, rk, x. split; [reflexivity|]. split.
+          exists r, rk, lk, x. split; [reflexivity|]. split.
           { cbn [exec] in E. destruct room; [reflexivity|]. inversion E. subst. exfalso.
             apply (f_equal (@length _)) in Hs. cbn in Hs. lia. }
           split; [exact Ek|]. rewrite wire_of_cons, Eb, Ek. reflexivity.
@@ -898,12 +898,12 @@ Section Phases.
       klookup K0 (items st) = Some it0 -> it_tomb it0 = false -> In (th, it_call it0) h ->
       r_own r = (it_dest it0, 1, it_remap it0) -> qout k id st = Some q -> kind_of (r_f r) = Some x -> wire_step q x = Some q' ->
       qarr arr (it_dest it0) (it_remap it0) = Some q' -> phase st h arr
-  | PhWindow : forall it0 th R, klookup K0 (items st) = Some it0 -> it_tomb it0 = false -> qout k id st = Some WEnd -> nb k id st = 0 ->
-      lookup tid_eqb th (threads st) = Some (IDelete K0 :: R) -> In (th, it_call it0) h -> phase st h arr.
+  | PhWindow : forall it0 th lk R, klookup K0 (items st) = Some it0 -> it_tomb it0 = false -> qout k id st = Some WEnd -> nb k id st = 0 ->
+      lookup tid_eqb th (threads st) = Some (IDelete K0 lk :: R) -> In (th, it_call it0) h -> phase st h arr.
 
   Lemma phase_q : forall st h arr, WInv st -> phase st h arr -> exists q, qout k id st = Some q.
   Proof.
-    intros st h arr HW [Hu|_ Hq|th code i f _ _ _ _ _ Hw _|th code ec q _ _ _ _ Hq _|it0 q _ _ _ Hq _ _|th code j r it0 q x q' _ _ _ _ _ _ _ _ Hq _ _ _|it0 th R _ _ Hq _ _ _].
+    intros st h arr HW [Hu|_ Hq|th code i f _ _ _ _ _ Hw _|th code ec q _ _ _ _ Hq _|it0 q _ _ _ Hq _ _|th code j r it0 q x q' _ _ _ _ _ _ _ _ Hq _ _ _|it0 th lk R _ _ Hq _ _ _].
     - exists W0. unfold qout. rewrite (unseen_wout k id st HW Hu). reflexivity.
     - exact Hq.
     - exists W0. unfold qout. rewrite Hw. reflexivity.
@@ -1189,7 +1189,7 @@ Section Trans.
     - destruct (step_items_keep _ _ _ _ _ _ HI Hs Hl0 Hlive) as [Hk|(th3&room3&rest3&i3&Hl3&Elk3&Hi3)]; [exact Hk|]. exfalso.
       rewrite Hl in Hl3. inversion Hl3. subst th3 room3. rewrite Elk in Elk3. inversion Elk3. subst i3 rest3.
       rewrite Hl in Hno. apply Hne. symmetry. eapply (touch_excl st h th2 room i2 rest (it_call it0)); try eassumption.
-      destruct Hi3 as [[s Hi3]|Hi3]; rewrite Hi3; cbn [touches_i]; apply live_call_in; assumption.
+      destruct Hi3 as [[s Hi3]|[lk3 Hi3]]; rewrite Hi3; cbn [touches_i]; apply live_call_in; assumption.
   Qed.
 
 
@@ -1228,10 +1228,10 @@ Section Trans.
   Qed.
 
   (* --- window: the terminal frame is out, the reader is about to delete K0 *)
-  Lemma trans_window : forall it0 th R, klookup K0 (items st) = Some it0 -> it_tomb it0 = false -> qout k id st = Some WEnd ->
-    nb k id st = 0 -> lookup tid_eqb th (threads st) = Some (IDelete K0 :: R) -> In (th, it_call it0) h -> phase k id st' h' arr'.
+  Lemma trans_window : forall it0 th lk R, klookup K0 (items st) = Some it0 -> it_tomb it0 = false -> qout k id st = Some WEnd ->
+    nb k id st = 0 -> lookup tid_eqb th (threads st) = Some (IDelete K0 lk :: R) -> In (th, it_call it0) h -> phase k id st' h' arr'.
   Proof.
-    intros it0 th R Hl0 Hlive Hq Hnb Elkw Hh.
+    intros it0 th lk R Hl0 Hlive Hq Hnb Elkw Hh.
     pose proof (k0_seen _ Hl0) as Hseen.
     destruct (lstep_or_not l) as [(th2&room&Hl)|Hn].
     - destruct (lstep_inv th2 room Hl) as (i2&rest&st1&pushed&Elk&E&Hst').
@@ -1240,7 +1240,8 @@ Section Trans.
       destruct (eqb_dec tid_eqb tid_eqb_ok th2 th) as [->|Hne].
       + (* the reader deletes K0 *)
         rewrite Elkw in Elk. inversion Elk. subst i2 rest.
-        pose proof E as E0. cbn [exec] in E0. destruct (items_delete st K0) as [st2 g] eqn:Ed.
+        pose proof E as E0. cbn [exec] in E0. rewrite (LInv_delete_is_delete st th K0 lk R (a_linv _ _ HA) Elkw) in E0.
+        destruct (items_delete st K0) as [st2 g] eqn:Ed.
         destruct (items_delete_spec _ _ _ _ Ed) as (_&_&_&_&_&_&_&Hd). rewrite Hl0 in Hd. destruct Hd as [Hg Hit]. subst g. rewrite Hlive in E0. cbn [negb] in E0.
         inversion E0. subst st1 pushed. clear E0.
         assert (Hnl : k0_notlive k id st').
@@ -1255,9 +1256,9 @@ Section Trans.
         destruct (quiet_other Hseen) as [Hnb' Hw].
         { intros th3 room3 i3 rest3 Hl3 Elk3. rewrite Hl in Hl3. inversion Hl3. subst th3 room3. rewrite Elk in Elk3. inversion Elk3. subst i3 rest3.
           split; [exact Hbi|exact Hpq]. }
-        assert (Elkw' : lookup tid_eqb th (threads st') = Some (IDelete K0 :: R)).
+        assert (Elkw' : lookup tid_eqb th (threads st') = Some (IDelete K0 lk :: R)).
         { eapply step_lookup_other; [exact Hs| |exact Elkw]. intros room3 Heq. rewrite Hl in Heq. inversion Heq. congruence. }
-        eapply (PhWindow k id st' h' arr' it0 th R); try assumption.
+        eapply (PhWindow k id st' h' arr' it0 th lk R); try assumption.
         * rewrite (qout_same k id _ _ Hw). exact Hq.
         * lia.
         * eapply held_keep; eassumption.
@@ -1265,9 +1266,9 @@ Section Trans.
       { intros th3 room3 i3 rest3 Hl3. exfalso. eapply Hn. exact Hl3. }
       assert (Hk0 : klookup K0 (items st') = Some it0).
       { destruct (step_items_keep _ _ _ _ _ _ HI Hs Hl0 Hlive) as [Hk|(th3&room3&rest3&i3&Hl3&_)]; [exact Hk|]. exfalso. eapply Hn. exact Hl3. }
-      assert (Elkw' : lookup tid_eqb th (threads st') = Some (IDelete K0 :: R)).
+      assert (Elkw' : lookup tid_eqb th (threads st') = Some (IDelete K0 lk :: R)).
       { eapply step_lookup_other; [exact Hs| |exact Elkw]. intros room3 Heq. eapply Hn. exact Heq. }
-      eapply (PhWindow k id st' h' arr' it0 th R); try assumption.
+      eapply (PhWindow k id st' h' arr' it0 th lk R); try assumption.
       * rewrite (qout_same k id _ _ Hw). exact Hq.
       * lia.
       * eapply held_keep; eassumption.
@@ -1311,7 +1312,7 @@ Section Trans.
       assert (Hnb' : nb k id st' = 0).
       { rewrite Hst', (nb_LStep cf k id _ _ _ _ _ _ _ HI Elk E), Hp. unfold bl. rewrite Hbj. cbn. lia. }
       apply PhSettled; [apply settled_of; [apply seen_mono; exact Hseen|exact Hnl'|exact Hnb']|].
-      destruct (step_wout cf k id _ _ _ Hs) as [Hw|(th3&room3&i3&rest3&Hl3&Elk3&Hb3&[(ec3&Hi3&Hw)|(r&rk&x&Hi3&_)])].
+      destruct (step_wout cf k id _ _ _ Hs) as [Hw|(th3&room3&i3&rest3&Hl3&Elk3&Hb3&[(ec3&Hi3&Hw)|(r&rk&lk3&x&Hi3&_)])].
       + exists q. rewrite (qout_same k id _ _ Hw). exact Hq.
       + exists WEnd. rewrite (qout_snoc k id _ _ _ _ Hq Hw). destruct q; try reflexivity. contradiction.
       + exfalso. rewrite Hl in Hl3. inversion Hl3. subst th3. rewrite Elk in Elk3. inversion Elk3. subst i3. discriminate.
@@ -1371,7 +1372,7 @@ Section Trans.
     destruct (unique_blocked k id st _ _ _ _ _ _ (inv_threads_nd _ HI) Hnb1 Hin2 (or_introl eq_refl) Hb2 Hin (or_introl eq_refl) Hbi) as [Hth Hi2]. subst th2 i2.
     rewrite Elki in Elk. inversion Elk. subst rest.
     assert (Hw : wout k id st' = wout k id st).
-    { destruct (step_wout cf k id _ _ _ Hs) as [Hw|(th3&room3&i3&rest3&Hl3&Elk3&_&[(ec3&Hi3&_)|(r&rk&x&Hi3&_)])]; [exact Hw| |];
+    { destruct (step_wout cf k id _ _ _ Hs) as [Hw|(th3&room3&i3&rest3&Hl3&Elk3&_&[(ec3&Hi3&_)|(r&rk&lk3&x&Hi3&_)])]; [exact Hw| |];
         rewrite Hl in Hl3; inversion Hl3; subst th3; rewrite Elki in Elk3; inversion Elk3; subst i3; subst i; discriminate. }
     assert (Hnb' : nb k id st' = csum (bl k id) pushed).
     { rewrite Hst', (nb_LStep cf k id _ _ _ _ _ _ _ HI Elki E). unfold bl at 1. rewrite Hbi. cbn. lia. }
@@ -1435,17 +1436,17 @@ Section Trans.
   Qed.
 
   Lemma committed_inv : forall j r, committed k id j = Some r ->
-    blocked k id j = true /\ ((exists rk g, j = IRcvChk r rk g) \/ (exists rk, j = IRcvEnq r rk)).
+    blocked k id j = true /\ ((exists rk g, j = IRcvChk r rk g) \/ (exists rk lk, j = IRcvEnq r rk lk)).
   Proof.
     intros j r H. destruct j; cbn [committed] in H; try discriminate.
     - destruct (blocked k id (IRcvChk r0 rk g)) eqn:Eb; [|discriminate]. inversion H. subst. split; [first [exact Eb|reflexivity]|left; eexists; eexists; reflexivity].
-    - destruct (blocked k id (IRcvEnq r0 rk)) eqn:Eb; [|discriminate]. inversion H. subst. split; [first [exact Eb|reflexivity]|right; eexists; reflexivity].
+    - destruct (blocked k id (IRcvEnq r0 rk lk)) eqn:Eb; [|discriminate]. inversion H. subst. split; [first [exact Eb|reflexivity]|right; eexists; eexists; reflexivity].
   Qed.
 
   (* data of a blocked forward: it is a response frame of the reader of its own connection, aimed at K0 *)
   Lemma fwd_data : forall th code j r, In (th, code) (threads st) -> In j code -> committed k id j = Some r ->
     r_ft r = c_responseFrame /\ rcv_key r = K0 /\ th = TR (key_conn (r_own r)) /\ key_dir (r_own r) = 1 /\ is_wire (r_f r) = true /\
-    (forall rk g, j = IRcvChk r rk g -> rk = K0) /\ (forall rk, j = IRcvEnq r rk -> rk = K0).
+    (forall rk g, j = IRcvChk r rk g -> rk = K0) /\ (forall rk lk, j = IRcvEnq r rk lk -> rk = K0).
   Proof.
     intros th code j r Hin Hj Hc. destruct (committed_inv _ _ Hc) as [Hb Hform].
     pose proof (w_code _ HW _ _ _ Hin Hj) as Hw. pose proof (f_thr _ _ HF _ _ _ Hin Hj) as Hthr.
@@ -1456,16 +1457,16 @@ Section Trans.
       rewrite (kind_of_response (r_f r)) in A by congruence.
       assert (Hft : r_ft r = c_responseFrame) by congruence.
       split; [exact Hft|]. split; [unfold rcv_key; rewrite Hft, E1, E2; reflexivity|]. unfold is_wire. rewrite Ek. reflexivity. }
-    destruct Hform as [(rk&g&->)|(rk&->)].
+    destruct Hform as [(rk&g&->)|(rk&lk&->)].
     - cbn in Hb. destruct g as [[it s]|]; [|discriminate]. cbn in Hw, Hthr. destruct Hthr as [Hrk Hth].
       rewrite !andb_true_iff in Hb. destruct Hb as [[Hb _] _]. rewrite <- !andb_true_iff in Hb.
       destruct (G Hw Hb) as (A&B&C). destruct (Hth A) as [D F]. repeat split; try assumption.
       + intros rk0 g0 Heq. inversion Heq. subst. congruence.
-      + intros rk0 Heq. discriminate.
+      + intros rk0 lk0 Heq. discriminate.
     - cbn in Hb. cbn in Hw, Hthr. destruct Hthr as [Hrk Hth].
       destruct (G Hw Hb) as (A&B&C). destruct (Hth A) as [D F]. repeat split; try assumption.
       + intros rk0 g0 Heq. discriminate.
-      + intros rk0 Heq. inversion Heq. subst. congruence.
+      + intros rk0 lk0 Heq. inversion Heq. subst. congruence.
   Qed.
 
 
@@ -1497,7 +1498,7 @@ Section Trans.
       { intros th2 room i2 rest Hl Elk. destruct (Hq2 _ _ _ _ Hl Elk) as [Hb2 Hrest].
         destruct (eqb_dec tid_eqb tid_eqb_ok th2 th) as [Heq|Hne]; [|eapply other_quiet; eassumption].
         subst th2. specialize (Hrest eq_refl). pose proof (lookup_in tid_eqb tid_eqb_ok _ _ _ Elk) as Hin2.
-        assert (Hnq : quiet j = false) by (destruct Hform as [(rk&g&->)|(rk&->)]; reflexivity).
+        assert (Hnq : quiet j = false) by (destruct Hform as [(rk&g&->)|(rk&lk&->)]; reflexivity).
         assert (Hnop : opener i2 = false).
         { destruct (opener i2) eqn:Eo; [|reflexivity]. destruct (shape_head _ _ (HS _ _ Hin2)) as (_&_&Hqq). specialize (Hqq Eo).
           rewrite forallb_forall in Hqq. rewrite (Hqq _ Hrest) in Hnq. discriminate. }
@@ -1506,7 +1507,7 @@ Section Trans.
           destruct (exec_shape _ _ _ _ _ _ E Hg) as [_ Hnil]. destruct (Hnil Hnop _ Hj0) as [kk ->]. reflexivity.
         - destruct (step_items_keep _ _ _ _ _ _ HI Hs Hl0 Hlive) as [Hk0|(th3&room3&rest3&i3&Hl3&Elk3&Hi3)]; [exact Hk0|]. exfalso.
           rewrite Hl in Hl3. inversion Hl3. subst th3 room3. rewrite Elk in Elk3. inversion Elk3. subst i3.
-          destruct Hi3 as [[s Hi3]|Hi3]; subst i2; discriminate. }
+          destruct Hi3 as [[s Hi3]|[lk3 Hi3]]; subst i2; discriminate. }
       destruct (quiet_other Hseen) as [Hnb' Hw].
       { intros th2 room i2 rest Hl Elk. split; [apply (Hq2 _ _ _ _ Hl Elk)|apply (Hquiet _ _ _ _ Hl Elk)]. }
       assert (Hk0 : klookup K0 (items st') = Some it0).
@@ -1527,7 +1528,7 @@ Section Trans.
     (* the committed instruction itself is executed *)
     destruct (unique_blocked k id st _ _ _ _ _ _ (inv_threads_nd _ HI) Hnb1 Hin2 (or_introl eq_refl) Hb2 Hin Hj Hbj) as [Heq Hi2]. subst th2 i2.
     assert (Hitems : items st' = items st).
-    { rewrite Hst'. cbn [set_thread set_threads items]. destruct Hform as [(rk&g&->)|(rk&->)]; cbn [exec] in E.
+    { rewrite Hst'. cbn [set_thread set_threads items]. destruct Hform as [(rk&g&->)|(rk&lk&->)]; cbn [exec] in E.
       - destruct g as [[it s]|]; [|inversion E; reflexivity]. destruct (it_tomb it || (fin_of (r_f r) && negb s)); inversion E; reflexivity.
       - destruct room; inversion E; reflexivity. }
     assert (Hk0 : klookup K0 (items st') = Some it0) by (rewrite Hitems; exact Hl0).
@@ -1535,7 +1536,7 @@ Section Trans.
     { intros code' Hl'. eapply held_keep; eassumption. }
     assert (Hlk' : pushed ++ rest <> [] -> lookup tid_eqb th (threads st') = Some (pushed ++ rest)).
     { intro Hne. rewrite Hst', lookup_set_thread_self. destruct (pushed ++ rest); [contradiction|reflexivity]. }
-    destruct Hform as [(rk&g&Hjeq)|(rk&Hjeq)]; subst j.
+    destruct Hform as [(rk&g&Hjeq)|(rk&lk&Hjeq)]; subst j.
     - (* IRcvChk -> IRcvEnq *)
       pose proof (HrkC _ _ eq_refl) as Hrk0. subst rk.
       cbn in Hbj. destruct g as [[it s]|]; [|discriminate]. apply andb_true_iff in Hbj. destruct Hbj as [Hbj Hb4].
@@ -1543,26 +1544,26 @@ Section Trans.
       assert (Hchk : it_tomb it || (fin_of (r_f r) && negb s) = false).
       { rewrite Hb3. cbn. destruct (fin_of (r_f r)); [|reflexivity]. cbn in Hb4. rewrite Hb4. reflexivity. }
       pose proof E as E0. cbn [exec] in E0. rewrite Hchk in E0.
-      match type of E0 with (_, ?cbs ++ [IRcvEnq r K0]) = _ => set (CBS := cbs) in * end.
+      match type of E0 with (_, ?cbs ++ [IRcvEnq r K0 ?lkk]) = _ => set (CBS := cbs) in *; set (LK := lkk) in * end.
       inversion E0. subst st1. clear E0.
-      assert (Hbe : blocked k id (IRcvEnq r K0) = true) by (cbn; exact Hb1).
+      assert (Hbe : blocked k id (IRcvEnq r K0 LK) = true) by (cbn; exact Hb1).
       assert (Hin' : In (th, pushed ++ rest) (threads st')).
       { rewrite Hst'. apply in_set_thread_self. rewrite <- H1. destruct CBS; discriminate. }
-      assert (Hje : In (IRcvEnq r K0) (pushed ++ rest)) by (rewrite <- H1; apply in_or_app; left; apply in_or_app; right; left; reflexivity).
+      assert (Hje : In (IRcvEnq r K0 LK) (pushed ++ rest)) by (rewrite <- H1; apply in_or_app; left; apply in_or_app; right; left; reflexivity).
       assert (Hnb' : nb k id st' = 1).
       { rewrite Hst', (nb_LStep cf k id _ _ _ _ _ _ _ HI Elk E). pose proof (pushed_bl_count k id _ _ _ _ _ _ E).
-        assert (In (IRcvEnq r K0) pushed) by (rewrite <- H1; apply in_or_app; right; left; reflexivity).
+        assert (In (IRcvEnq r K0 LK) pushed) by (rewrite <- H1; apply in_or_app; right; left; reflexivity).
         pose proof (csum_in_le k id _ _ H0). unfold bl in *. cbn [blocked] in *. rewrite Hb1 in *. cbn [b2z] in *.
         rewrite Hb3 in *. cbn [negb andb] in *. rewrite Hb4 in *. cbn [b2z] in *. lia. }
       assert (Hw : wout k id st' = wout k id st).
-      { destruct (step_wout cf k id _ _ _ Hs) as [Hw|(th3&room3&i3&rest3&Hl3&Elk3&_&[(ec3&Hi3&_)|(r3&rk3&x3&Hi3&_)])]; [exact Hw| |];
+      { destruct (step_wout cf k id _ _ _ Hs) as [Hw|(th3&room3&i3&rest3&Hl3&Elk3&_&[(ec3&Hi3&_)|(r3&rk3&lk3&x3&Hi3&_)])]; [exact Hw| |];
           rewrite Hl in Hl3; inversion Hl3; subst th3; rewrite Elk in Elk3; inversion Elk3; subst i3; discriminate. }
-      eapply (PhFwd k id st' h' arr' th (pushed ++ rest) (IRcvEnq r K0) r it0 q x q'); try eassumption.
+      eapply (PhFwd k id st' h' arr' th (pushed ++ rest) (IRcvEnq r K0 LK) r it0 q x q'); try eassumption.
       + cbn [committed]. rewrite Hbe. reflexivity.
       + apply (Hself (pushed ++ rest)). apply lookup_of_in'. exact Hin'.
       + rewrite (qout_same k id _ _ Hw). exact Hq.
     - (* IRcvEnq: the frame is handed to the caller's connection, or the buffer is full *)
-      pose proof (HrkE _ eq_refl) as Hrk0. subst rk.
+      pose proof (HrkE _ _ eq_refl) as Hrk0. subst rk.
       assert (Hmore : (0 <? r_more r) = false).
       { destruct (0 <? r_more r) eqn:Em; [|reflexivity]. apply Z.ltb_lt in Em.
         pose proof (w_code _ HW _ _ _ Hin Hj) as Hw. cbn in Hw. destruct Hw as (_&_&C). rewrite (C Em) in Hft. discriminate. }
@@ -1572,7 +1573,7 @@ Section Trans.
       destruct room.
       + pose proof E as E0. cbn [exec] in E0. inversion E0. subst st1. clear E0.
         assert (Hw : wout k id st' = wout k id st ++ [x]).
-        { destruct (step_wout cf k id _ _ _ Hs) as [Hw|(th3&room3&i3&rest3&Hl3&Elk3&_&[(ec3&Hi3&_)|(r3&rk3&x3&Hi3&_&Hk3&Hw)])].
+        { destruct (step_wout cf k id _ _ _ Hs) as [Hw|(th3&room3&i3&rest3&Hl3&Elk3&_&[(ec3&Hi3&_)|(r3&rk3&lk3&x3&Hi3&_&Hk3&Hw)])].
           - exfalso. unfold wout in Hw. rewrite Hst' in Hw. cbn [set_thread set_threads sent set_sent] in Hw. rewrite wire_of_cons in Hw.
             cbn in Hbj. rewrite !andb_true_iff in Hbj. destruct Hbj as [[E1 E2] _]. rewrite E1, E2, Hk in Hw. cbn in Hw.
             apply (f_equal (@length _)) in Hw. rewrite app_length in Hw. cbn in Hw. lia.
@@ -1587,9 +1588,9 @@ Section Trans.
         * (* the terminal frame *)
           assert (q' = WEnd) by (apply (wire_step_terminal _ _ _ Hst); congruence). subst q'.
           cbn [app] in H1.
-          assert (Hlk'' : lookup tid_eqb th (threads st') = Some (IDelete K0 :: IDelete (r_own r) :: rest)).
+          assert (Hlk'' : lookup tid_eqb th (threads st') = Some (IDelete K0 lk :: IDelete (r_own r) (r_d r, f_id (r_f r)) :: rest)).
           { rewrite Hlk' by (rewrite <- H1; discriminate). rewrite <- H1. reflexivity. }
-          eapply (PhWindow k id st' h' arr' it0 th (IDelete (r_own r) :: rest)); try eassumption. apply (Hself _ Hlk'').
+          eapply (PhWindow k id st' h' arr' it0 th lk (IDelete (r_own r) (r_d r, f_id (r_f r)) :: rest)); try eassumption. apply (Hself _ Hlk'').
         * (* a non-final frame: everything the destination sent so far has been forwarded *)
           assert (Hq'ne : q' <> WEnd).
           { intro Heq. subst q'. pose proof (proj2 (wire_step_terminal _ _ _ Hst) eq_refl). congruence. }
@@ -1603,7 +1604,7 @@ Section Trans.
       + (* full buffer: the reader goes on to fail the item *)
         pose proof E as E0. cbn [exec] in E0. inversion E0. subst st1. clear E0.
         assert (Hw : wout k id st' = wout k id st).
-        { destruct (step_wout cf k id _ _ _ Hs) as [Hw|(th3&room3&i3&rest3&Hl3&Elk3&_&[(ec3&Hi3&_)|(r3&rk3&x3&Hi3&Hroom&_)])]; [exact Hw| |].
+        { destruct (step_wout cf k id _ _ _ Hs) as [Hw|(th3&room3&i3&rest3&Hl3&Elk3&_&[(ec3&Hi3&_)|(r3&rk3&lk3&x3&Hi3&Hroom&_)])]; [exact Hw| |].
           - rewrite Hl in Hl3. inversion Hl3. subst th3. rewrite Elk in Elk3. inversion Elk3. subst i3. discriminate.
           - rewrite Hl in Hl3. inversion Hl3. subst room3. discriminate. }
         assert (Hnb' : nb k id st' = 0).
@@ -1759,7 +1760,7 @@ Section Trans.
       rewrite Hl in Hl3. inversion Hl3. subst th3 room3. rewrite Elk in Elk3. inversion Elk3. subst i3 rest3.
       assert (Hnl' : k0_notlive k id st').
       { intros it Hx. rewrite Hst' in Hx. cbn [set_thread set_threads items] in Hx.
-        destruct Hi3 as [[s Hi3]|Hi3]; subst i2; cbn [exec] in E.
+        destruct Hi3 as [[s Hi3]|[lk3 Hi3]]; subst i2; cbn [exec] in E.
         - destruct (items_entomb cf st K0) as [st2 g] eqn:Ee.
           destruct (items_entomb_spec _ _ _ _ _ Ee) as (_&_&_&_&_&_&Hsp). rewrite Hl0 in Hsp.
           assert (Hit2 : items st1 = items st2) by (destruct g as [[it1 [|]]|]; inversion E; reflexivity). rewrite Hit2 in Hx.
@@ -1767,14 +1768,15 @@ Section Trans.
           + rewrite Hi, (lookup_remove_eq key_eqb key_eqb_ok) in Hx. discriminate.
           + congruence.
           + rewrite Hi, (lookup_insert_eq key_eqb key_eqb_ok) in Hx. inversion Hx. reflexivity.
-        - destruct (items_delete st K0) as [st2 g] eqn:Ed.
+        - rewrite (LInv_delete_is_delete st th2 K0 lk3 rest (a_linv _ _ HA) Elk) in E.
+          destruct (items_delete st K0) as [st2 g] eqn:Ed.
           destruct (items_delete_spec _ _ _ _ Ed) as (_&_&_&_&_&_&_&Hsp). rewrite Hl0 in Hsp. destruct Hsp as [_ Hi].
           assert (Hit2 : items st1 = items st2) by (destruct g as [[it1 [|]]|]; inversion E; reflexivity). rewrite Hit2 in Hx.
           rewrite Hi, (lookup_remove_eq key_eqb key_eqb_ok) in Hx. discriminate. }
       destruct (Z_lt_le_dec 0 (csum (bl k id) pushed)) as [Hpos|Hzero].
       + destruct (csum_pos_in k id _ Hpos) as (j&Hj&Hbj).
         destruct (new_blocked_touch _ _ _ _ _ _ _ Hl Elk E Hb2 Hj Hbj) as (it1&_&_&_&[(r&s&Hi2&_)|(s&ec&Hi2&Hjeq)]).
-        * exfalso. destruct Hi3 as [[s3 Hi3]|Hi3]; congruence.
+        * exfalso. destruct Hi3 as [[s3 Hi3]|[lk4 Hi3]]; congruence.
         * subst j. eapply (PhErr k id st' h' arr' th2 (pushed ++ rest) ec q); try eassumption; [|apply in_or_app; left; exact Hj|lia].
           rewrite Hst'. apply in_set_thread_self. intro Hnil. apply app_eq_nil in Hnil. destruct Hnil as [-> _]. contradiction.
       + assert (Hnb0 : nb k id st' = 0) by (pose proof (csum_bl_nonneg k id pushed); lia).
